@@ -187,20 +187,7 @@ func checkC10(c *Ctx, r *Report) {
 	r.NotDecided = []string{"timing of the exponential back-off", "that retransmitted bytes equal the first transmission byte-for-byte (follows from freshness + C06 layouts, not checked as values)"}
 	r.Trusted = []string{"go/types, go/ssa (x/tools v0.29.0)", "backoff.Retry calls the operation until it returns nil, Stop, or the context is done", "gopacket LayersDecoder overwrites exactly the layers registered with Put"}
 
-	// (a) IsTemporary
-	r.Rule("temporary-codes", "the set of completion codes classified as temporary is exactly {0xC0 node busy, 0xC3 timeout}", 1)
-	if f := c.Method("pkg/ipmi", "CompletionCode", "IsTemporary"); f == nil {
-		r.Lost("ipmi.CompletionCode.IsTemporary")
-	} else {
-		r.Fn(c.FnName(f))
-		set, err := predicateTrueSet(f, 0, 255)
-		if err != nil {
-			r.Unk("ipmi.CompletionCode.IsTemporary|true-set", f.Pos(), "predicate not analysable: "+err.Error())
-		} else {
-			got := rangesString(set)
-			r.Check(got == "{0xC0,0xC3}", "ipmi.CompletionCode.IsTemporary|true-set", f.Pos(), "true-set "+got, "true-set is "+got+", want {0xC0,0xC3}")
-		}
-	}
+	checkTemporaryCodes(c, r)
 
 	scs := checkClosureExits(c, r)
 
@@ -394,6 +381,7 @@ func checkC10(c *Ctx, r *Report) {
 	// only: the transport neither filters replies (an undecodable one would become a lost one, which
 	// is terminal inside a session) nor sends on its own (rule shared with C11, C09)
 	checkOneWriteOneRead(c, r)
+	checkSendSites(c, r)
 }
 
 // lateFailure: the path classified the completion code as final and then found a call's error
@@ -651,4 +639,23 @@ func checkClosureExits(c *Ctx, r *Report) []SendClosure {
 	}
 
 	return scs
+}
+
+// checkTemporaryCodes: the exact true-set of CompletionCode.IsTemporary (shared with C14: a
+// cancelled reservation, 0xC5, must reach the SDR walk as a final code for the walk to restart).
+func checkTemporaryCodes(c *Ctx, r *Report) {
+	r.Rule("temporary-codes", "the set of completion codes classified as temporary is exactly {0xC0 node busy, 0xC3 timeout}", 1)
+	if f := c.Method("pkg/ipmi", "CompletionCode", "IsTemporary"); f == nil {
+		r.Lost("ipmi.CompletionCode.IsTemporary")
+	} else {
+		r.Fn(c.FnName(f))
+		set, err := predicateTrueSet(f, 0, 255)
+		if err != nil {
+			r.Unk("ipmi.CompletionCode.IsTemporary|true-set", f.Pos(), "predicate not analysable: "+err.Error())
+		} else {
+			got := rangesString(set)
+			r.Check(got == "{0xC0,0xC3}", "ipmi.CompletionCode.IsTemporary|true-set", f.Pos(), "true-set "+got, "true-set is "+got+", want {0xC0,0xC3}")
+		}
+	}
+
 }
